@@ -3,3 +3,23 @@ chk("C01", "E1 program explorer",
     "Every program (ancestry DAG) up to depth 2 over the op alphabet (depth 3 on a compact alphabet) from every chunking of small sources is built through the real API, computed on the synchronous scheduler and compared with step-wise NumPy; the bounded space is enumerated completely, nothing is sampled.",
     "Trusted: NumPy as reference; small-scope bounds (axis <= 6, rank <= 3, depth <= 3); the op alphabet in mc/ops.py.",
     "DESIGN.md §4 C01")
+chk("C03", "E1 program explorer",
+    "bounded exhaustive program exploration; harness executes every block key of the real graph and compares with advertised chunks",
+    "For every program of the bounded E1 space the task graph from __dask_graph__() is executed by the harness with optimize-graph on and off and every block key is fetched: block shape equals chunks at that index, block dtype equals dtype, the assembled result has the advertised shape/dtype.",
+    "Trusted: dask's synchronous get; small-scope bounds as C01.",
+    "DESIGN.md §4 C03")
+chk("C04", "E1 program explorer",
+    "bounded exhaustive program exploration with a structural graph invariant evaluated in every state",
+    "For every program of the bounded E1 space, optimize-graph on and off: __dask_keys__ is the (name,*block) grid, the graph defines every advertised key and every dependency, is acyclic (Kahn), no key is defined by two layers with different tasks, and name/chunks/dtype/keys are unchanged by graph construction, optimize() and compute().",
+    "Trusted: dependency extraction by dask._task_spec.convert_legacy_graph.",
+    "DESIGN.md §4 C04")
+chk("C08", "E1 program explorer",
+    "bounded exhaustive program exploration; termination watchdog + idempotence invariant per state",
+    "For every program of the bounded E1 space simplify/lower/fuse/optimize return (20 s watchdog), raise only if the unoptimized compute raises, and re-simplifying / re-optimizing (expression and collection level) keeps the name.",
+    "Trusted: 20 s watchdog as the non-termination criterion.",
+    "DESIGN.md §4 C08")
+chk("C27", "E1 program explorer + E2",
+    "bounded exhaustive program exploration (every node of every phase) plus complete enumeration of layout pairs for moved_fraction",
+    "Every node of the unlowered, raw-lowered, simplified, lowered, fused and materialized trees of every program of the bounded E1 space has a well-formed transfer estimate (pair, 0<=min<=max, NaN only with unknown sizes, aliases and same-chunk rechunks move nothing).",
+    "Trusted: small-scope bounds as C01.",
+    "DESIGN.md §4 C27")
